@@ -36,6 +36,11 @@ def escapeToken (k : String) : String :=
 
 def mkPatch (action valueKey : String) (v : Json) : Json := .obj [("action", .str action), (valueKey, v)]
 
+/-- an empty list: as `publicKey` / `service` it asks for nothing and is left out (D40) -/
+def isEmptyList : Json → Bool
+  | .arr [] => true
+  | _ => false
+
 /-- `PatchesFromDocument` on the decoded document. `none` = error. -/
 def fromDocument (doc : Json) : Option (List Json) :=
   let kvs := match doc with
@@ -49,7 +54,8 @@ def fromDocument (doc : Json) : Option (List Json) :=
     else
       let sorted := sortByName kvs
       let special : Option (List Json) := sorted.foldlM (fun acc (k, v) =>
-        if k = "publicKey" then some (acc ++ [mkPatch "add-public-keys" "publicKeys" v])
+        if (k = "publicKey" ∨ k = "service") ∧ isEmptyList v then some acc
+        else if k = "publicKey" then some (acc ++ [mkPatch "add-public-keys" "publicKeys" v])
         else if k = "service" then some (acc ++ [mkPatch "add-services" "services" v])
         else if k = "alsoKnownAs" then
           match goStringArray v with
